@@ -70,37 +70,6 @@ fn prior(r: &mut Rng, p: &mut Parser, log: &mut Log, id: Option<u8>, n: u8) -> &
     }
 }
 
-/// a line the statements say is inert between fragments
-fn inert_line(r: &mut Rng, group_id: Option<u8>, group_n: u8, next_k: u8) -> (Vec<u8>, bool, &'static str) {
-    match r.below(5) {
-        0 => (nmea_ref::mk(1, 1, None, b"15RTgt0PAso;90TKcjM8h6g208CQ", 0), true, "unfrag-decodable"),
-        1 => (nmea_ref::mk(1, 1, Some(9), b"zzzz", 0), true, "unfrag-undecodable"),
-        2 => {
-            let mut b = Build::simple(1, 1, None, b"A", b"15RTgt0PAso;90TKcjM8h6g208CQ", 0);
-            b.cks = Some(nmea_ref::xor(&b.body()) ^ 0x40);
-            (b.line(), false, "bad-checksum")
-        }
-        3 => (b"$GPGGA,123519,4807.038,N,01131.000,E,1,08,0.9,545.4,M,46.9,M,,*47".to_vec(), false, "malformed"),
-        _ => {
-            // sequencing-rejected stranger: another id, half of the time with exactly the count
-            // and number the open group expects next; ids that an implementation might confuse
-            // with "no id" (255, 0) are preferred partners of a group without id and vice versa
-            let other = match (group_id, r.below(3)) {
-                (None, 0) => Some(255),
-                (None, 1) => Some(0),
-                (Some(255), 0) | (Some(0), 0) => None,
-                (Some(_), 1) => None,
-                (g, _) => Some(g.map_or(7, |x| ((x as u16 + 5) % 10) as u8)),
-            };
-            if r.bool() {
-                (nmea_ref::mk(group_n, next_k, other, &uniq_payload(7100), 0), false, "stranger-next-number")
-            } else {
-                (nmea_ref::mk(5, r.range(2, 5) as u8, other, &uniq_payload(7100), 0), false, "stranger")
-            }
-        }
-    }
-}
-
 fn split_points(r: &mut Rng, len: usize, parts: usize) -> Vec<usize> {
     // parts-1 distinct cut positions in 1..len
     let mut cuts: Vec<usize> = Vec::new();
@@ -124,6 +93,9 @@ struct Case<'a> {
     interleave: bool,
     kind: &'a str,
     vary_decode: bool,
+    /// re-draw the presentation of every fragment line independently (talker, VDM/VDO, delimiter,
+    /// tag block, channel, leading zeros, checksum spelling, line ending, non-final fill count)
+    dress: bool,
 }
 
 fn run_case(rep: &mut Report, r: &mut Rng, c: &Case) {
@@ -142,14 +114,32 @@ fn run_case(rep: &mut Report, r: &mut Rng, c: &Case) {
         let part = &c.payload[prev..*end];
         prev = *end;
         let fill = if k == n { c.fill } else { 0 };
-        let mut b = Build::simple(n, k, c.id, if j % 2 == 0 { b"A" } else { b"B" }, part, fill);
+        let chan = if j % 2 == 0 { b'A' } else { b'B' };
+        let mut b = Build::simple(n, k, c.id, &[chan], part, fill);
         b.id = c.idtext.clone();
+        let (chan, fill) = if c.dress { dress(r, &mut b, k < n) } else { (chan, fill) };
         let line = b.line();
         if c.interleave && j > 0 {
             for _ in 0..r.below(4) {
-                let (l, d, cls) = inert_line(r, c.id, n, k);
+                let (l, d, cls) = inert_between(r, c.id, n, k);
                 let _ = feed(&mut p, &mut log, l, d);
                 inter.push(cls);
+            }
+            // no-allocator build: a would-be next fragment that does not fit the fixed buffer is a
+            // rejected line like any other - the fragment that does fit must still continue the group
+            let acc = *end - part.len();
+            if mon::is_noalloc() && r.chance(1, 3) && acc < 384 {
+                let extra = if r.bool() { 385 - acc } else { r.usize(385 - acc, 384) };
+                let mut ob = Build::simple(n, k, c.id, b"A", &vec![b'w'; extra], 0);
+                ob.id = c.idtext.clone();
+                match feed(&mut p, &mut log, ob.line(), false) {
+                    Call::Done(Outcome::Err(_)) => inter.push("over-capacity"),
+                    // accepting it is C18's finding, and the group is no longer the one tested here
+                    _ => {
+                        rep.count("over-capacity-line-not-rejected");
+                        return;
+                    }
+                }
             }
         }
         rep.eval();
@@ -170,7 +160,7 @@ fn run_case(rep: &mut Report, r: &mut Rng, c: &Case) {
         if k < n {
             match &o {
                 Outcome::Incomplete(s) => {
-                    if s.data != part || s.n != n || s.k != k || s.id != c.id || s.fill != fill || s.channel != Some(if j % 2 == 0 { 'A' } else { 'B' }) || s.message.is_some() {
+                    if s.data != part || s.n != n || s.k != k || s.id != c.id || s.fill != fill || s.channel != Some(chan as char) || s.message.is_some() {
                         bad(rep, "incomplete-wrong-fields", format!("Incomplete does not carry the fragment's own fields: {}", o.canon()));
                         return;
                     }
@@ -227,7 +217,7 @@ fn run_case(rep: &mut Report, r: &mut Rng, c: &Case) {
     };
     inter.sort();
     inter.dedup();
-    rep.class(format!("n={}|id={}|prior={}|inter={}|decode={}|{}", n, idc, pr, inter.join("+"), c.decode as u8, c.kind));
+    rep.class(format!("n={}|id={}|prior={}|inter={}|decode={}|dressed={}|{}", n, idc, pr, inter.join("+"), c.decode as u8, c.dress as u8, c.kind));
     rep.count("groups");
     rep.sample(4, || {
         let mut o = J::obj();
@@ -308,7 +298,7 @@ pub fn run(ctx: &Ctx, rep: &mut Report) {
             }
             item += 1;
             let (id, idtext) = ids[(mask as usize) % ids.len()];
-            let c = Case { payload: &payload, fill: 0, cuts, id, idtext: idtext.into(), decode: false, interleave: mask % 3 == 0, kind: "compositions", vary_decode: mask % 5 == 0 };
+            let c = Case { payload: &payload, fill: 0, cuts, id, idtext: idtext.into(), decode: false, interleave: mask % 3 == 0, kind: "compositions", vary_decode: mask % 5 == 0, dress: mask % 2 == 1 };
             run_case(rep, &mut r, &c);
         }
     }
@@ -322,7 +312,7 @@ pub fn run(ctx: &Ctx, rep: &mut Report) {
         }
         let parts = r.usize(2, 9.min(chars.len()));
         let (id, idtext) = *r.pick(&ids);
-        let c = Case { payload: &chars, fill, cuts: split_points(&mut r, chars.len(), parts), id, idtext: idtext.into(), decode: i % 8 != 0, interleave: r.bool(), kind: br.name, vary_decode: i % 3 == 0 };
+        let c = Case { payload: &chars, fill, cuts: split_points(&mut r, chars.len(), parts), id, idtext: idtext.into(), decode: i % 8 != 0, interleave: r.bool(), kind: br.name, vary_decode: i % 3 == 0, dress: i % 2 == 1 };
         run_case(rep, &mut r, &c);
     }
     // (3) repository vectors and random armored text / arbitrary non-comma bytes
@@ -342,7 +332,7 @@ pub fn run(ctx: &Ctx, rep: &mut Report) {
             // one-character final fragment
             cuts = vec![payload.len() - 1];
         }
-        let c = Case { payload: &payload, fill: r.below(6) as u8, cuts, id, idtext: idtext.into(), decode: i % 3 == 0, interleave: r.bool(), kind: "text", vary_decode: i % 4 == 0 };
+        let c = Case { payload: &payload, fill: r.below(6) as u8, cuts, id, idtext: idtext.into(), decode: i % 3 == 0, interleave: r.bool(), kind: "text", vary_decode: i % 4 == 0, dress: i % 2 == 1 };
         run_case(rep, &mut r, &c);
     }
     // (4) long groups up to the no-allocator capacity (total <= 384 here; beyond is C18's)
@@ -351,7 +341,7 @@ pub fn run(ctx: &Ctx, rep: &mut Report) {
         let payload = armor_chars(&mut r, total);
         let parts = r.usize(2, 9);
         let (id, idtext) = *r.pick(&ids);
-        let c = Case { payload: &payload, fill: 0, cuts: split_points(&mut r, total, parts), id, idtext: idtext.into(), decode: false, interleave: r.bool(), kind: "long", vary_decode: false };
+        let c = Case { payload: &payload, fill: 0, cuts: split_points(&mut r, total, parts), id, idtext: idtext.into(), decode: false, interleave: r.bool(), kind: "long", vary_decode: false, dress: r.bool() };
         run_case(rep, &mut r, &c);
     }
     for _ in 0..ctx.budget(300, 20_000) {
